@@ -49,6 +49,24 @@ CHECKS = {
        "handler calls, pending __close calls, and a post-error consistency battery after every caught error",
   note="bounded: nesting <=3-4, <=5-7 actions; raising message handlers and raising __close handlers under xpcall are not generated; error message wording beyond the position prefix is not compared",
   technique="TLA+ spec CloseStack.tla (ErrorFlow configs), TLC BFS + simulation, generated programs replayed on the real runtime (direction A)"),
+ "C05": dict(
+  level="model_checking", ref="5 C05-C07",
+  text="real Lua programs (paths generated by TLC from the CloseStack/ErrorFlow/CoSem specs, 16 never-ending adversarial shells with pcall loops, xpcall handlers, "
+       "coroutines, __close and __gc handlers, 20 library amplification templates with size parameters up to 2^62) run under CPU limits around and far from "
+       "their own usage; the context events recorded by the verif hooks (push/popped/pop/limit/kill/host) are validated by TLC against the actions of "
+       "Quota.tla through QuotaTrace.tla: every kill is decided exactly at used+n >= limit, nothing runs and nothing is host-visible in a killed context, "
+       "push/pop follow CallContext, statuses are truthful; a verdict event per run makes TLC check 'killed iff L <= u', prefix/identity of events, used < L. "
+       "The manager itself is model-checked and replayed per transition by the C07 machinery",
+  note="limits <= 10^9 (32-bit TLC integers; larger logged amounts are clamped); watchdog time limits are observations of the process; CPU ticks per operation are never compared",
+  technique="TLA+ specs Quota.tla + QuotaTrace.tla, TLC trace validation of hook traces from real programs (direction B)"),
+ "C06": dict(
+  level="model_checking", ref="5 C05-C07",
+  text="same machinery as C05 with memory limits: programs run under limits around their measured peak; traces (including every kill decision on a memory request "
+       "and memory released while unwinding) validated by TLC against Quota.tla via QuotaTrace.tla; a memverdict event per run makes TLC check used < M and "
+       "monotonicity of being killed in M; adversarial shells with allocating bodies must be killed; amplification templates must end by kill/error quickly "
+       "with used < M and Go heap allocation (MemStats.TotalAlloc delta) below 64*M + 64 MiB",
+  note="heap-growth and wall-clock bounds are observations, not decided by the specification; byte counts per object are never compared",
+  technique="TLA+ specs Quota.tla + QuotaTrace.tla, TLC trace validation of hook traces from real programs (direction B)"),
 }
 NOT_YET = {}
 
